@@ -20,13 +20,15 @@ META = {
             "structure per table, one definition per PL/pgSQL function / trigger: handle_log, insert_transaction, insert_posting, insert_move, "
             "upsert_account, update/delete_*_metadata, revert_transaction, the four history triggers) over the combinators of Model/Store/Sql.lean; "
             "Lean theorems evaluate that generated projection in the kernel: projection_refines_replay_partial_small_scope (all 316 histories of "
-            "<= 2 entries over a small alphabet: every difference from replay lies at an (account, asset) with one of two named shapes, no row of "
+            "<= 2 entries over a small alphabet: the tables agree with replay on EVERY clause, no (account, asset) excepted, and no row of "
             "another ledger is touched), projection_refines_replay_partial_example; three UNBOUNDED theorems about generated functions (every database state): "
             "revert_sets_reverted_at_exactly, metadata_updates_keep_reverted_at, projection_frame_partial (revert_transaction / update_ / "
-            "delete_transaction_metadata and the revision trigger never touch another ledger's rows); and the refutations projection_effective_volumes_null "
-            "(design 6 #24), projection_self_posting_breaks_volumes (new), projection_timestamp_offset_dropped (#25), "
-            "get_account_balance_before_witness (#22, latent); the same comparison runs executably on every generated history of the run and on "
-            "an exhaustive enumeration to depth 3 (quick) / 4 (thorough).  The full projection_refines_replay (induction over arbitrary log "
+            "delete_transaction_metadata and the revision trigger never touch another ledger's rows); the witnesses of the three repaired defects, now agreeing: "
+            "projection_backdated_move_effective_volumes (design 6 #24), projection_self_posting_new_account, projection_timestamp_utc + "
+            "stored_timestamps_are_utc (#25; projection_timestamp_offset_dropped keeps what the SQL would do with an offset: latent), and "
+            "get_account_balance_before_witness (#22, latent); the same comparison runs executably on every generated history of the run - with the offset "
+            "OBSERVED in the timestamp text the real ParseTime + json.Marshal produce - and on an exhaustive enumeration to depth 3 (quick) / 4 (thorough).  "
+            "The full projection_refines_replay (induction over arbitrary log "
             "sequences through the generated definitions) and reads_equal_replay (what the Go query builders compute) are NOT proved.",
     "note": "Stage 2 rests on Model/Store/Sql.lean, my reading of PostgreSQL (three-valued logic, select-into assigning NULLs when no row is "
             "returned, on-conflict, row-level after triggers, jsonb operators, ::timestamp dropping the zone) - TRUSTED, nothing can execute SQL here; "
@@ -379,6 +381,53 @@ def py_explanation(shapes, d):
     return "unexplained"
 
 
+def stored_offset_minutes(text):
+    """UTC offset (minutes) carried by an RFC 3339 text as json.Marshal wrote it; None when the text has another shape"""
+    if text.endswith("Z"):
+        return 0
+    m = re.search(r"([+-])(\d\d):(\d\d)$", text)
+    if not m:
+        return None
+    return (1 if m.group(1) == "+" else -1) * (int(m.group(2)) * 60 + int(m.group(3)))
+
+
+def check_stored_timestamps(ctx, inputs, impl):
+    """The Go half of design 6 #25, on the REAL code: a transaction whose timestamp the client wrote with a UTC offset goes through
+    ledger.ParseTime; the text json.Marshal then puts into the log payload (what ledgerstore.InsertLogs COPYs into logs.data, and what
+    insert_transaction casts with ::timestamp without time zone, ignoring any offset) must be UTC.  Returns {(input id, ledger, log id): minutes}."""
+    seen, n = {}, 0
+    for inp in inputs:
+        out = impl.get(inp["id"]) or {}
+        zs = out.get("storedTimestamps", [])
+        for z in zs:
+            n += 1
+            off = stored_offset_minutes(z["text"])
+            seen[(inp["id"], z["ledger"], z["id"])] = off
+            if off is None:
+                ctx.l2_broken.append({"stream": "storeview-stored-timestamp-shape", "id": inp["id"], "detail": z})
+            elif off != 0:
+                ctx.violation({"property": "C04", "class": "stored-timestamp-offset", "level": "impl"},
+                              "ledger %s, log %s: the transaction timestamp was written with offset %+d min and the log payload stores %r: PostgreSQL's "
+                              "::timestamp without time zone ignores the offset, the transaction is filed %d minutes off its instant" % (
+                                  z["ledger"], z["id"], z["tz"], z["text"], off),
+                              {"area": "storeview", "input": {k: v for k, v in inp.items() if k != "corpus"}, "observed": {"storedTimestamps": zs}})
+    return seen, n
+
+
+def with_stored_offsets(inp, seen):
+    """the input line for the MODEL of the SQL half: every transaction's "tz" becomes the offset the real code stored (0 when it stored UTC);
+    the offset the client wrote is kept as "tzWritten" """
+    out = json.loads(json.dumps({k: v for k, v in inp.items() if k != "corpus"}))
+    for l in out["logs"]:
+        tx = l.get("tx")
+        if tx and tx.get("tz"):
+            tx["tzWritten"] = tx["tz"]
+            tx["tz"] = seen.get((inp["id"], l["ledger"], l["id"])) or 0
+    if inp.get("corpus"):
+        out["corpus"] = True
+    return out
+
+
 def report_model_discrepancies(ctx, inp, out, counts, stream):
     """one violation per distinct (class, shape) of a history"""
     if "driver_error" in out:
@@ -405,7 +454,7 @@ def report_model_discrepancies(ctx, inp, out, counts, stream):
                       {"area": "storesql", "input": inp, "model_level_only": True, "note": MODEL_NOTE})
 
 
-def stage2(ctx, sv_inputs, sv_impl):
+def stage2(ctx, sv_inputs, sv_seen):
     info = {}
     summary_path = os.path.join(BUILD, "schema.json")
     if os.path.exists(summary_path):
@@ -427,10 +476,12 @@ def stage2(ctx, sv_inputs, sv_impl):
         if rp.get("area") == "storesql":
             inputs = [dict(rp["input"], id=0)]
     elif sv_inputs is not None:
-        inputs = corpus_inputs("storesql") + sv_inputs
-        for k, r in enumerate(inputs):
-            if r.get("corpus") and "id" not in r:
-                r["id"] = -(k + 1)
+        # corpus/storesql: model-level witnesses (a "tz" there is the offset in the STORED text); then every history of the storeview run,
+        # corpus/storeview included, with the offsets the real code stored
+        cs = corpus_inputs("storesql")
+        for r in cs:
+            r["id"] -= 100000
+        inputs = cs + [with_stored_offsets(i, sv_seen) for i in sv_inputs]
     if inputs:
         inf, outf = ctx.path("storesql.in.jsonl"), ctx.path("storesql.model.jsonl")
         write_jsonl(inf, inputs)
@@ -452,14 +503,6 @@ def stage2(ctx, sv_inputs, sv_impl):
                                  "histories_by_discrepancy (class | shape)": dict(sorted(counts.items())),
                                  "rows_projected": {k: sum(o["rows"][k] for o in outs.values() if "rows" in o) for k in
                                                     ("logs", "transactions", "moves", "accounts", "transactions_metadata", "accounts_metadata")}}
-            # the Go half of #25: what InsertLogs would store carries the offset the client wrote
-            zs = [z for i in inputs for z in (sv_impl or {}).get(i["id"], {}).get("storedTimestamps", [])]
-            bad = [z for z in zs if z["text"].endswith("Z") or not re.search(r"[+-]\d\d:\d\d$", z["text"])]
-            info["stored_timestamps_with_offset (Go half of design 6 #25, observed on the real json.Marshal of the log payload)"] = {
-                "transactions_written_with_an_offset": len(zs), "offset_present_in_stored_text": len(zs) - len(bad),
-                "sample": zs[:2]}
-            if bad:
-                ctx.l2_broken.append({"stream": "storesql-stored-timestamp", "detail": bad[:3]})
     # ---- exhaustive small scope
     if not ctx.replay_file:
         depth = 3 if ctx.quick else 4
@@ -520,10 +563,16 @@ def run(ctx):
     n = 1500 if ctx.quick else 30000
     r = run_area(ctx, "storeview", n, have_driver)
     sv_eval = 0
-    sv_inputs, sv_impl = None, None
+    sv_inputs, sv_impl, sv_seen, n_zoned = None, None, {}, 0
     if r is not None:
         inputs, impl, model = r
-        sv_inputs, sv_impl = [i for i in inputs if not i.get("corpus")], impl
+        sv_inputs, sv_impl = inputs, impl
+        sv_seen, n_zoned = check_stored_timestamps(ctx, inputs, impl)
+        ctx.cov["stored_timestamps (Go half of design 6 #25: real ParseTime, then json.Marshal of the log payload)"] = {
+            "transactions_written_with_an_offset": n_zoned, "stored_as_utc_text": sum(1 for v in sv_seen.values() if v == 0),
+            "sample": [z for i in inputs for z in (impl.get(i["id"]) or {}).get("storedTimestamps", [])][:3]}
+        if not ctx.replay_file and n_zoned == 0:
+            ctx.l2_broken.append({"stream": "storeview-no-zoned-transaction", "detail": "the generator produced no transaction written with a UTC offset"})
         if model is not None:
             compare(ctx, "storeview:inmemory=replay", inputs, impl, model,
                     proj_impl=lambda i, o: {k: v for k, v in o.items() if k != "storedTimestamps"})
@@ -575,7 +624,7 @@ def run(ctx):
 
     ctx.cov["evaluations"] = sv_eval + rs_eval
     # ---------------- stage 2: the generated PL/pgSQL projection (model level)
-    n2 = stage2(ctx, sv_inputs, sv_impl) or 0
+    n2 = stage2(ctx, sv_inputs, sv_seen) or 0
     ctx.cov["evaluations"] += n2
     ctx.cov["distinct_nontrivial"] = ctx.cov.get("storeview", {}).get("distinct_nontrivial", 0) + rs_eval
     ctx.cov["rule"] = ("storeview: random bucket histories (1-3 ledgers, <= %d log entries, NEW_TRANSACTION with back-/future-/equal-dated "
@@ -588,7 +637,8 @@ def run(ctx):
         "1d ledger predicate": "structural obligation on captured SQL text of every ledgerstore read method, on InsertLogs' COPY rows and on the schema's `language sql` read functions",
         "2e translation": "regenerated on every run (extract/plpgsql -> Generated/Schema.lean); a construct outside the grammar stops the check",
         "2f projection vs replay": "kernel-checked on all histories of <= 2 entries + one rich example (partial theorems); executable comparison on the "
-                                   "generated histories of the run and on the enumeration to depth 3/4; clauses (i),(ii) REFUTED on two shapes (findings), (iii)-(v) no counterexample; "
+                                   "generated histories of the run and on the enumeration to depth 3/4; no counterexample to any clause (i)-(v) since the repairs of insert_move / "
+                                   "insert_posting / ParseTime (the three former counterexamples are corpus witnesses and agree); "
                                    "unbounded proofs only for revert_transaction / update_transaction_metadata / delete_transaction_metadata + their trigger "
                                    "(reverted_at written exactly there; frame); the insert path (insert_transaction, insert_posting, insert_move, upsert_account) has NO unbounded proof",
         "2g read functions / read queries": "get_account_balance(_before) transcribed by hand: latent defect witnessed; the Go query builders are NOT modelled "
